@@ -1,5 +1,5 @@
 (** * DynamicLevels: [cofactor] / [quantify] with keys given as LEVELS under
-      dynamic reordering (dd commit a1c66f6).
+      dynamic reordering (dd commit 827d7f0).
 
     The public methods are not decorated any more: they turn their keys into
     variable names in the state of the call and run the decorated workers
@@ -114,7 +114,7 @@ Proof. intros HF. rewrite cofactor_levels_unfold. by rewrite decide_False by exa
 (** ** dynamic reordering enabled, any tape: the analogues of
     [quantify_dynamic] / [cofactor_dynamic] *)
 Theorem quantify_levels_dynamic s L u qvars fa r s' :
-  Inv s → Counts s L → rctx s = false →
+  Inv s → Counts s L → rctx s = false → max_nodes s = None →
   valid s u → heldn L (absn u) →
   Forall (fun l => is_Some (lvl2var s !! l)) qvars →
   quantify u false qvars fa s = (r, s') →
@@ -129,15 +129,15 @@ Theorem quantify_levels_dynamic s L u qvars fa r s' :
        valid s' x ∧
        ∀ ρ, denv s' x ρ = true ↔ qsemv s fa (list_to_set names) u ρ.
 Proof.
-  intros HI HC Hc Hu Ku HF Hrun.
+  intros HI HC Hc Hmx Hu Ku HF Hrun.
   destruct (quantify_levels_as_names s u qvars fa HI HF) as (names&Hnd&Hin&Hdecl&E).
   rewrite E in Hrun.
-  destruct (quantify_dynamic s L u names fa r s' sifting_ok'_holds HI HC Hc Hu Ku Hdecl Hrun)
+  destruct (quantify_dynamic s L u names fa r s' sifting_ok'_holds HI HC Hc Hmx Hu Ku Hdecl Hrun)
     as [?|(x&?)]; [by left|right]. by exists x, names.
 Qed.
 
 Theorem cofactor_levels_dynamic s L u values r s' :
-  Inv s → Counts s L → rctx s = false →
+  Inv s → Counts s L → rctx s = false → max_nodes s = None →
   valid s u → heldn L (absn u) →
   Forall (fun p => is_Some (lvl2var s !! p.1)) values →
   cofactor u false values s = (r, s') →
@@ -154,16 +154,16 @@ Theorem cofactor_levels_dynamic s L u values r s' :
        valid s' x ∧
        ∀ ρ, denv s' x ρ = denv s u (overridev (list_to_map (reverse nv)) ρ).
 Proof.
-  intros HI HC Hc Hu Ku HF Hrun.
+  intros HI HC Hc Hmx Hu Ku HF Hrun.
   destruct (cofactor_levels_as_names s u values HI HF) as (nv&Hnd&Hin&Hdecl&E).
   rewrite E in Hrun.
-  destruct (cofactor_dynamic s L u nv r s' sifting_ok'_holds HI HC Hc Hu Ku Hdecl Hrun)
+  destruct (cofactor_dynamic s L u nv r s' sifting_ok'_holds HI HC Hc Hmx Hu Ku Hdecl Hrun)
     as [?|(x&?)]; [by left|right]. by exists x, nv.
 Qed.
 
 (** ** with an empty oracle tape (the literal code): no oracle alternative *)
 Theorem quantify_levels_notape s L u qvars fa r s' :
-  Inv s → Counts s L → rctx s = false → tape s = [] →
+  Inv s → Counts s L → rctx s = false → tape s = [] → max_nodes s = None →
   valid s u → heldn L (absn u) →
   Forall (fun l => is_Some (lvl2var s !! l)) qvars →
   quantify u false qvars fa s = (r, s') →
@@ -177,15 +177,15 @@ Theorem quantify_levels_notape s L u qvars fa r s' :
         ∀ ρ, denv s' x ρ = true ↔ qsemv s fa (list_to_set names) u ρ) ∧
   tape s' = [].
 Proof.
-  intros HI HC Hc Ht Hu Ku HF Hrun.
+  intros HI HC Hc Ht Hmx Hu Ku HF Hrun.
   destruct (quantify_levels_as_names s u qvars fa HI HF) as (names&Hnd&Hin&Hdecl&E).
   rewrite E in Hrun.
-  destruct (quantify_notape s L HI HC Hc Ht u names fa r s' Hu Ku Hdecl Hrun)
+  destruct (quantify_notape s L HI HC Hc Ht Hmx u names fa r s' Hu Ku Hdecl Hrun)
     as [(x&?) Ht']. split; [|done]. by exists x, names.
 Qed.
 
 Theorem cofactor_levels_notape s L u values r s' :
-  Inv s → Counts s L → rctx s = false → tape s = [] →
+  Inv s → Counts s L → rctx s = false → tape s = [] → max_nodes s = None →
   valid s u → heldn L (absn u) →
   Forall (fun p => is_Some (lvl2var s !! p.1)) values →
   cofactor u false values s = (r, s') →
@@ -201,10 +201,10 @@ Theorem cofactor_levels_notape s L u values r s' :
         ∀ ρ, denv s' x ρ = denv s u (overridev (list_to_map (reverse nv)) ρ)) ∧
   tape s' = [].
 Proof.
-  intros HI HC Hc Ht Hu Ku HF Hrun.
+  intros HI HC Hc Ht Hmx Hu Ku HF Hrun.
   destruct (cofactor_levels_as_names s u values HI HF) as (nv&Hnd&Hin&Hdecl&E).
   rewrite E in Hrun.
-  destruct (cofactor_notape s L HI HC Hc Ht u nv r s' Hu Ku Hdecl Hrun)
+  destruct (cofactor_notape s L HI HC Hc Ht Hmx u nv r s' Hu Ku Hdecl Hrun)
     as [(x&?) Ht']. split; [|done]. by exists x, nv.
 Qed.
 
